@@ -14,7 +14,7 @@ import (
 func init() {
 	register(&propDef{
 		ID:          "C04",
-		Explanation: "Decides that the URL sanitiser has the allow-list shape with exactly the listed schemes, and the typed routing — not a WHATWG URL parse of the output: R1 templ.URL is walked as a decision function over the truth assignments of its atoms (colon found, slash before the first colon, one case-insensitive comparison per scheme): the input is returned (converted to SafeURL, unmodified) only when no colon was found, or a slash precedes the first colon, or the text before the first colon equals one of the compared constants; every compared constant is one of {http, https, mailto, tel, ftp, ftps}; every other path returns the constant failure URL, whose own scheme is about:; the compared text is the input up to the FIRST colon; no other normalisation of the input takes place; R2 the generator routes at least (a, href) and (form, action) to the emission `var v templ.SafeURL = <expr>` followed by the HTML-escaped write of string(v) (GEM), and type-level witnesses hold: SafeURL is a defined, non-alias type with underlying string, templ.URL has type func(string) templ.SafeURL, and assigning a plain string variable to a SafeURL variable does not type-check. NOT decided: how a browser resolves the returned string (trusted argument: a scheme cannot contain '/', and without ':' there is no scheme), href values arriving through spread attributes.",
+		Explanation: "Decides that the URL sanitiser has the allow-list shape with exactly the listed schemes, and the typed routing — not a WHATWG URL parse of the output: R1 templ.URL is walked as a decision function over the truth assignments of its atoms (colon found, slash before the first colon, one case-insensitive comparison per scheme): the input is returned (converted to SafeURL, unmodified) only when no colon was found, or a slash precedes the first colon, or the text before the first colon equals one of the compared constants; every compared constant is one of {http, https, mailto, tel, ftp, ftps}; every other path returns the constant failure URL, whose own scheme is about:; the compared text is the input up to the FIRST colon; no other normalisation of the input takes place; R2 the generator routes at least (a, href) and (form, action) to the emission `var v templ.SafeURL = <expr>` followed by the HTML-escaped write of string(v) (GEM), and type-level witnesses hold: SafeURL is a defined, non-alias type with underlying string, templ.URL has type func(string) templ.SafeURL, and assigning a plain string variable to a SafeURL variable does not type-check. R3 the escaper the URL is written through (templ.EscapeString) returns html.EscapeString of its argument on every path: an escaper that keeps existing character references would turn the colon-free, hence accepted, `javascript&colon;…` into a javascript: URL in the attribute. NOT decided: how a browser resolves the returned string (trusted argument: a scheme cannot contain '/', and without ':' there is no scheme), href values arriving through spread attributes.",
 		Assumptions: []string{"a URL reference is relative when it has no ':' or a '/' occurs before its first ':'", "strings.EqualFold is case-insensitive equality"},
 		Trusted:     []string{"go/types", "go/parser", "x/tools go/packages"},
 		Run:         runC04,
@@ -84,6 +84,7 @@ func collectConds(list []ast.Stmt, out *[]ast.Expr) bool {
 
 func runC04(c *Ctx) {
 	c.load(".", "./generator")
+	escaperIdentity(c, c.flow(), "C04.R3")
 	p := c.pkg(".")
 	info := p.TypesInfo
 	fd := findFunc(p, "", "URL")
@@ -173,7 +174,7 @@ func runC04(c *Ctx) {
 		}
 	}
 	if colonAtom == "" || slashAtom == "" || len(unknown) > 0 {
-		c.undec("C04.R1", key+"|atoms", c.pos(fd.Pos()), fmt.Sprintf("unrecognised conditions in templ.URL (colon test %q, slash test %q, other %v): the decision table cannot be interpreted", colonAtom, slashAtom, unknown))
+		c.undec("C04.R1", key+"|atoms", c.pos(fd.Pos()), fmt.Sprintf("unrecognised conditions in templ.URL (colon test %q, slash test %q, other %v): the decision table cannot be interpreted. The only accepted reason to let an input with a colon through unchecked is a '/' before the first colon; a test that tries to recognise scheme syntax instead is not, because browsers remove tabs, newlines and leading control characters before they read the scheme (\"java\\tscript:\" is a scheme to them)", colonAtom, slashAtom, unknown))
 		return
 	}
 	// the truth table
@@ -273,26 +274,67 @@ func runC04(c *Ctx) {
 	n := g.names()
 	// the URL value writer: emits `var GV templ.SafeURL = UX`
 	var urlWriter *GFunc
+	// the URL writer is found through its dispatcher: the emitting function called under a condition that names
+	// the attribute "href" (so that a change of the emission's own text cannot hide it)
+	var viaDispatch *GFunc
+	for _, gf := range g.order {
+		ast.Inspect(gf.Decl.Body, func(x ast.Node) bool {
+			is, ok := x.(*ast.IfStmt)
+			if !ok {
+				return true
+			}
+			namesHref := false
+			ast.Inspect(is.Cond, func(y ast.Node) bool {
+				if e, ok := y.(ast.Expr); ok {
+					if s, isC := constString(g.info, e); isC && s == "href" {
+						namesHref = true
+					}
+				}
+				return true
+			})
+			if !namesHref {
+				return true
+			}
+			ast.Inspect(is.Body, func(y ast.Node) bool {
+				if call, ok := y.(*ast.CallExpr); ok {
+					if fn := calleeOf(g.info, call); fn != nil {
+						for _, cand := range g.order {
+							if cand.Obj == fn && cand.Emits && viaDispatch == nil {
+								viaDispatch = cand
+							}
+						}
+					}
+				}
+				return true
+			})
+			return true
+		})
+	}
 	for _, gf := range g.order {
 		if !gf.Emits {
 			continue
 		}
 		for _, sk := range g.Skeletons(gf) {
-			if sk.File == nil || !strings.Contains(sk.Src, "templ.SafeURL = ") {
+			if sk.File == nil {
 				continue
 			}
-			direct := false
-			for _, nd := range gf.Tree {
-				if e, ok := nd.(Emit); ok {
-					for _, pp := range e.Parts {
-						if pp.Kind == PConst && strings.Contains(pp.Const, "templ.SafeURL = ") {
-							direct = true
+			if gf != viaDispatch {
+				if !strings.Contains(sk.Src, "templ.SafeURL = ") {
+					continue
+				}
+				direct := false
+				for _, nd := range gf.Tree {
+					if e, ok := nd.(Emit); ok {
+						for _, pp := range e.Parts {
+							if pp.Kind == PConst && strings.Contains(pp.Const, "templ.SafeURL = ") {
+								direct = true
+							}
 						}
 					}
 				}
-			}
-			if !direct {
-				continue
+				if !direct {
+					continue
+				}
 			}
 			urlWriter = gf
 			// shape: var GV templ.SafeURL = UX ; buffer.WriteString(templ.EscapeString(string(GV)))
@@ -315,7 +357,7 @@ func runC04(c *Ctx) {
 				return true
 			})
 			c.check(okDecl && okSink, "C04.R2", gf.Key+"|typed-then-escaped", c.pos(gf.Decl.Pos()), "var v templ.SafeURL = <expr>; WriteString(templ.EscapeString(string(v)))",
-				gf.Name+": the URL attribute emission no longer assigns the expression to a templ.SafeURL variable and writes its HTML-escaped string")
+				gf.Name+": the URL attribute emission is not `var v templ.SafeURL = <expr>` followed by the HTML-escaped write of string(v). Only the typed declaration makes the Go compiler reject a plain string; a conversion templ.SafeURL(<expr>) or an untyped := accepts any string, so href={ userInput } compiles and is written unsanitised")
 		}
 	}
 	if urlWriter == nil {
